@@ -837,7 +837,17 @@ def xemb(prop, tier, seed, t0):
     return automata_check(prop, tier, seed, t0, {"XEMB"}, scs)
 
 
-REGISTRY = {"XEMB": xemb, "XGLUE": xglue, "XENUM": xenum, "C17": c17, "C11": c11, "C12": c12, "C13": c13, "C14": c14, "C15": c15, "C16": c16, "C01": c01, "C02": c02, "C03": c03, "C04": c04, "C05": c05, "C06": c06, "C07": c07, "C08": c08, "C09": c09, "C10": c10, "C18": c18, "C19": c19}
+def ximpl(prop, tier, seed, t0):
+    """extension: recorded executions against Mechanism!MStep, state for state and frame for frame"""
+    scs = (campaigns.campaign_c07(seed, tier) + campaigns.campaign_c05(seed, tier)[-40:] + campaigns.campaign_c06(seed, tier)
+           + campaigns.campaign_c08(seed, tier)[:40] + campaigns.campaign_c03(seed, tier) + campaigns.campaign_c10(seed, tier)[:16]
+           + campaigns.campaign_c02(seed, tier) + campaigns.campaign_c09(seed, tier)[:24] + campaigns.campaign_c19(seed, tier)
+           + campaigns.campaign_c04(seed, tier)[-3:] + campaigns.campaign_c18_measure() + campaigns.campaign_c01(seed, tier)[:8])
+    scs, cov = with_g1(scs, seed, tier, 600, thorough_limit=20000)
+    return responder_check(prop, tier, seed, t0, {"XIMPL", "SNAP"}, scs, mc=[MC_IMPL], extra_cov=cov)
+
+
+REGISTRY = {"XIMPL": ximpl, "XEMB": xemb, "XGLUE": xglue, "XENUM": xenum, "C17": c17, "C11": c11, "C12": c12, "C13": c13, "C14": c14, "C15": c15, "C16": c16, "C01": c01, "C02": c02, "C03": c03, "C04": c04, "C05": c05, "C06": c06, "C07": c07, "C08": c08, "C09": c09, "C10": c10, "C18": c18, "C19": c19}
 
 
 # =========================================================================== replay
